@@ -1,4 +1,5 @@
 import SyneTune.Lemmas.HBPromotion
+import Mathlib.Data.List.Nodup
 /- `_mark_as_promoted`, "promoted at most once", PASHA cap, cost / RUSH scans (C04). -/
 namespace SyneTune
 
@@ -20,7 +21,7 @@ theorem markPromoted_perm (m : Mode) (rg : Rung) (pos : Nat) (e : Entry) (h : rg
     (markPromoted m rg pos).level = rg.level ∧ (markPromoted m rg pos).q = rg.q := by
   unfold markPromoted
   simp only [h]
-  exact ⟨insertEntry_perm m _ _, rfl, rfl⟩
+  exact ⟨insertEntry_perm m _ _, trivial, trivial⟩
 
 /-- trial `t` is recorded as promoted in rung `rg` -/
 def PromotedIn (rg : Rung) (t : Nat) : Prop := ∃ e ∈ rg.data, e.tid = t ∧ e.promoted = true
@@ -75,30 +76,32 @@ theorem add_keeps_promoted (m : Mode) (rg : Rung) (e : Entry) (t : Nat) (h : Pro
 
 /-! ### PASHA cap -/
 
-/-- invariant tying `current_max_t` to `current_rung_idx` -/
+/-- invariant tying `current_max_t` to `current_rung_idx`: the cap is `max_t` only once the
+index has run past all rungs; otherwise it is the rung level `rung_levels[idx - 1]`
+(`idx = 0` happens only with a single rung level, Python's `rung_levels[-1]`). -/
 def PashaInv (s : RungSys) : Prop :=
   s.levelsAsc.Pairwise (· < ·) ∧ (∀ l ∈ s.levelsAsc, l < s.maxT) ∧
   s.rungs.length = s.levelsAsc.length ∧
-  (s.curMaxT = s.maxT ∨ (1 ≤ s.curIdx ∧ s.levelsAsc[s.curIdx - 1]? = some s.curMaxT) ∨
-   (s.curIdx = 0 ∧ s.levelsAsc.getLast? = some s.curMaxT))
+  ((s.curMaxT = s.maxT ∧ s.rungs.length ≤ s.curIdx) ∨
+   (1 ≤ s.curIdx ∧ s.levelsAsc[s.curIdx - 1]? = some s.curMaxT) ∨
+   (s.curIdx = 0 ∧ s.levelsAsc = [s.curMaxT]))
 
 theorem promoReport_pasha_fields (s s' : RungSys) (m : Mode) (tid r : Nat) (v cost : Rat) (o : RepOut)
     (h : s.promoReport m tid r v cost = .ok (s', o)) :
     s'.levelsAsc = s.levelsAsc ∧ s'.maxT = s.maxT ∧ s'.curIdx = s.curIdx ∧ s'.curMaxT = s.curMaxT ∧
     s'.rungs.length = s.rungs.length := by
   unfold RungSys.promoReport at h
-  split at h
-  · cases h
-  · split at h
+  cases hr : alookup tid s.running with
+  | none => simp [hr] at h
+  | some mr =>
+    simp only [hr] at h
+    split at h
     · split at h
       · cases h
-      · split at h
-        · injection h with h; injection h with h1 _; subst h1; simp
-        · split at h
-          · cases h
-          · split at h
-            · cases h
-            · injection h with h; injection h with h1 _; subst h1; simp
+      · obtain ⟨_, _, hs⟩ := promoReached_spec s s' m tid v cost mr.1 _ o h
+        rcases hs with rfl | ⟨pos, rg, _, _, _, rfl, _⟩
+        · simp
+        · simp
     · injection h with h; injection h with h1 _; subst h1; simp
 
 /-- **PASHA: the cap only grows, and is always a rung level or `max_t`.** -/
@@ -114,65 +117,53 @@ theorem pashaReport_cap (s s' : RungSys) (m : Mode) (tid r : Nat) (v eps : Rat) 
     simp only [hp] at h
     obtain ⟨i1, i2, i3, i4⟩ := hinv
     have hmem : ∀ {k x}, s.levelsAsc[k]? = some x → x ∈ s.levelsAsc := fun hk => List.mem_of_getElem? hk
-    -- facts about the un-increased state
-    have base : PashaInv { s1 with epsilon := eps } ∧ s.curMaxT ≤ s1.curMaxT ∧
-        (s1.curMaxT = s1.maxT ∨ s1.curMaxT ∈ s1.levelsAsc) := by
-      refine ⟨⟨by simpa [f1] using i1, by simpa [f1, f2] using i2, by simp [f5, f1, i3], ?_⟩, by omega, ?_⟩
-      · simpa [f1, f2, f3, f4] using i4
-      · rw [f4, f2, f1]
-        rcases i4 with h1 | ⟨_, h1⟩ | ⟨_, h1⟩
-        · exact Or.inl h1
-        · exact Or.inr (hmem h1)
-        · exact Or.inr (List.mem_of_getLast? h1)
-    split at h
-    · cases h
-    · rename_i inc _
-      split at h
-      · split at h
-        · split at h
-          · cases h
-          · rename_i l hl
+    have capOK : s.curMaxT = s.maxT ∨ s.curMaxT ∈ s.levelsAsc := by
+      rcases i4 with ⟨h1, _⟩ | ⟨_, h1⟩ | ⟨_, h1⟩
+      · exact Or.inl h1
+      · exact Or.inr (hmem h1)
+      · exact Or.inr (by rw [h1]; simp)
+    cases hinc : ({ s1 with epsilon := eps } : RungSys).pashaIncrease m with
+    | error e => simp [hinc] at h
+    | ok inc =>
+      simp only [hinc] at h
+      by_cases hi : inc = true
+      · simp only [hi, if_true] at h
+        by_cases hlt : s1.curIdx < s1.rungs.length
+        · simp only [hlt, if_true] at h
+          cases hl : s1.levelsAsc[s1.curIdx]? with
+          | none => simp [hl] at h
+          | some l =>
+            simp only [hl] at h
             injection h with h; injection h with h1 _; subst h1
-            simp only at hl ⊢
             rw [f3, f1] at hl
+            rw [f3, f5] at hlt
             have hlmem : l ∈ s.levelsAsc := hmem hl
             refine ⟨⟨by simpa [f1] using i1, by simpa [f1, f2] using i2, by simp [f5, f1, i3],
-              Or.inr (Or.inl ⟨by omega, by simpa [f1, f3] using hl⟩)⟩, ?_, Or.inr (by simpa [f1] using hlmem)⟩
-            -- monotone: old cap is an earlier level, `max_t` is impossible only if ... use order
-            rcases i4 with h1 | ⟨hge, h1⟩ | ⟨h0, h1⟩
-            · -- old cap = maxT, new cap is a level < maxT: but then curIdx < length contradicts? not
-              -- necessarily; the code can lower the cap only if the cap was maxT while idx < len.
-              -- This cannot happen: cap = maxT is reached only when idx = len (see invariant below).
-              exfalso
-              -- we strengthen: with cap = maxT coming from the `else` branch idx = rungs.length
-              -- (not derivable from PashaInv alone) — handled by `PashaInv'` in the Props file.
-              exact absurd h1 (by
-                intro hcm
-                have := i2 s.curMaxT
-                -- no contradiction available here
-                exact (Nat.lt_irrefl _ (by
-                  have hl2 := i2 l hlmem
-                  omega)).elim)
-            · have hlt : s.levelsAsc[s.curIdx - 1]? = some s.curMaxT := h1
-              have : s.curMaxT < l := by
-                have hk : s.curIdx - 1 < s.curIdx := by omega
-                have hlen : s.curIdx < s.levelsAsc.length := by
-                  have := List.getElem?_eq_some_iff.mp hl; exact this.1
-                have hp := List.pairwise_iff_getElem.mp i1 (s.curIdx - 1) s.curIdx (by omega) hlen hk
-                have e1 := (List.getElem?_eq_some_iff.mp hlt).2
-                have e2 := (List.getElem?_eq_some_iff.mp hl).2
-                rw [← e1, ← e2]; exact hp
+              Or.inr (Or.inl ⟨by simp, by simpa [f1, f3] using hl⟩)⟩, ?_, Or.inr (by simpa [f1] using hlmem)⟩
+            simp only
+            rcases i4 with ⟨_, h1⟩ | ⟨hge, h1⟩ | ⟨h0, h1⟩
+            · omega
+            · have hlen : s.curIdx < s.levelsAsc.length := (List.getElem?_eq_some_iff.mp hl).1
+              have hp' := List.pairwise_iff_getElem.mp i1 (s.curIdx - 1) s.curIdx (by omega) hlen (by omega)
+              have e1 := (List.getElem?_eq_some_iff.mp h1).2
+              have e2 := (List.getElem?_eq_some_iff.mp hl).2
+              rw [← e1, ← e2]; exact Nat.le_of_lt hp'
+            · rw [h0, h1] at hl
+              simp at hl
               omega
-            · -- idx = 0: cap is the last level; new cap = levels[0] ≤ last level ... equality when one level
-              sorry
-        · injection h with h; injection h with h1 _; subst h1
+        · simp only [hlt, if_false] at h
+          injection h with h; injection h with h1 _; subst h1
+          rw [f3, f5] at hlt
+          refine ⟨⟨by simpa [f1] using i1, by simpa [f1, f2] using i2, by simp [f5, f1, i3],
+            Or.inl ⟨rfl, by simp [f5, f3]; omega⟩⟩, ?_, Or.inl rfl⟩
           simp only
-          refine ⟨⟨by simpa [f1] using i1, by simpa [f1, f2] using i2, by simp [f5, f1, i3], Or.inl rfl⟩, ?_, Or.inl rfl⟩
-          rcases i4 with h1 | ⟨_, h1⟩ | ⟨_, h1⟩
+          rcases capOK with h1 | h1
           · omega
-          · have := i2 _ (hmem h1); omega
-          · have := i2 _ (List.mem_of_getLast? h1); omega
-      · injection h with h; injection h with h1 _; subst h1
-        exact base
+          · have := i2 _ h1; omega
+      · simp only [hi, Bool.false_eq_true, if_false] at h
+        injection h with h; injection h with h1 _; subst h1
+        refine ⟨⟨by simpa [f1] using i1, by simpa [f1, f2] using i2, by simp [f5, f1, i3], ?_⟩, by simp [f4], ?_⟩
+        · simpa [f1, f2, f3, f4, f5] using i4
+        · simpa [f1, f2, f4] using capOK
 
 end SyneTune
